@@ -151,6 +151,8 @@ func (p *Printer) Sx(n *N) string {
 		return "(" + "try" + p.sp() + "(fn []" + p.list(n.A) + "))"
 	case "force":
 		return "(" + "force" + p.sp() + n.S + ")"
+	case "subst":
+		return "(" + "str" + p.sp() + "(substitute" + p.sp() + n.S + "))"
 	case "bad": // a form that fails to compile (C05 compile-error injection)
 		return n.S
 	}
